@@ -22,6 +22,8 @@ type propSpec struct {
 	run         func(c *Ctx)
 	// configs beyond the default that the thorough tier adds
 	extra []BuildConfig
+	// configs beyond the default that the quick tier runs too (integer widths: GOARCH=386)
+	quickExtra []BuildConfig
 	// selftest runs positive controls (in-memory mutants); returns human lines and failures
 	assumptions []string
 	trusted     []string
@@ -123,7 +125,11 @@ func main() {
 				}
 			}
 		}
+		if os.Getenv("VERIF_CONFIG") == "" && *tier != "thorough" {
+			cfgs = append(cfgs, spec.quickExtra...)
+		}
 		if *tier == "thorough" {
+			cfgs = append(cfgs, spec.quickExtra...)
 			cfgs = append(cfgs, spec.extra...)
 			// the build-tagged files of the other targets: darwin shares the unix files with other syscall tables;
 			// windows brings server_windows.go, request_windows.go and the stub files.  Rules whose oracle tables are
